@@ -537,5 +537,87 @@ theorem good_rowsMatch (F : BodyFn) (P : Project) (g : G) (cfg : Cfg) (s : Sess)
     obtain ⟨hh, hs, hr⟩ := hrows v hv
     exact ⟨hh, by rw [stateOf_fs P _ _ hfs]; exact hs, hr⟩
 
+/-! ## order of picks (C01) in the form needed here -/
+
+theorem picks_order {F : BodyFn} {P : Project} {g : G} {cfg : Cfg} {so so' : Sorter} {s s' : Sess}
+    {picks : List Nat} (hg : GraphOK P g)
+    (hso : Sorter.fromDag g isTaskV (prioFn P) = .ok so)
+    (hb : buildLoop F P g cfg so s picks = .ok (so', s')) :
+    picks.Nodup ∧ ∀ pre t post, picks = pre ++ t :: post → ∀ u ∈ P.tasks, u.id = t →
+      ∀ a ∈ taskAnc g t, a ∈ pre := by
+  obtain ⟨hd0, hp0⟩ := fromDag_init hso
+  have hr0 : Reach so.edges so [] := Reach.init so hd0 hp0
+  obtain ⟨hr1, _, hord, _⟩ := buildLoop_order F P g cfg picks so.edges so s [] so' s' hr0 hd0 hb
+  have hnd : (picks.map tv).Nodup := by simpa using (reach_inv hr1).hnodup
+  have hpn : picks.Nodup := by
+    have := List.pairwise_map.1 hnd
+    exact this.imp (fun hne heq => hne (by rw [heq]))
+  refine ⟨hpn, ?_⟩
+  intro pre t post hp u hu hut a ha
+  unfold taskAnc at ha
+  simp only [List.mem_map, List.mem_filter] at ha
+  obtain ⟨v, ⟨hv1, hv2⟩, rfl⟩ := ha
+  have htn : tv t ∈ g.nodes := by rw [← hut]; exact hg.taskNode u hu
+  have hedge : (v, tv t) ∈ so.edges := (fromDag_edges hso v (tv t)).2 ⟨htn, by simp, hv1, hv2⟩
+  have := hord pre t post hp v hedge
+  simp only [List.nil_append, List.mem_map] at this
+  obtain ⟨a', ha', hv⟩ := this
+  have : v / 2 = a' := by rw [← hv]; simp
+  rw [this]; exact ha'
+
+/-- **Rows match at the end of the build.** A task reported SUCCESS, PERSISTENCE or SKIP_UNCHANGED
+in a (non-dry) build has, in the *final* world, a matching row for every neighbour: tasks that ran
+after it wrote only their own products, which are neither its dependencies (their producers are
+its ancestors and ran earlier), nor its module, nor its products (unique producers). -/
+theorem final_rowsMatch {F : BodyFn} {P : Project} {g : G} {cfg : Cfg} {so so' : Sorter} {s0 s' : Sess}
+    {picks : List Nat} (hwf : WF P) (hg : GraphOK P g) (hdry : cfg.dry = false)
+    (hso : Sorter.fromDag g isTaskV (prioFn P) = .ok so)
+    (hloop : buildLoop F P g cfg so s0 picks = .ok (so', s')) (hs0 : s0.reports = [])
+    (e : Nat × Outcome) (he : e ∈ s'.reports)
+    (hgood : e.2 = .success ∨ e.2 = .persistence ∨ e.2 = .skipUnchanged) :
+    RowsMatch P g s'.w e.1 ∧ ∃ pre post, picks = pre ++ e.1 :: post := by
+  obtain ⟨hnd, hord⟩ := picks_order hg hso hloop
+  rcases buildLoop_report_origin picks e hloop he with h0 | ⟨pre, post, hp, hall⟩
+  · rw [hs0] at h0; cases h0
+  · refine ⟨?_, pre, post, hp⟩
+    rw [hp] at hloop
+    obtain ⟨so1, s1, spec, hpre, hfind, hpost⟩ := buildLoop_split pre hloop
+    have hout := hall so1 s1 spec hpre hfind
+    have hspec : spec ∈ P.tasks := find?_mem hfind
+    have hid : spec.id = e.1 := find?_id hfind
+    have hrm := good_rowsMatch F P g cfg s1 spec hg hspec hdry (by rw [← hout]; exact hgood)
+    rw [hid] at hrm
+    apply rowsMatch_buildLoop_frame F P g cfg e.1 post _ so' _ s' hpost _ hrm
+    intro x hx xs hfx
+    have hxs : xs ∈ P.tasks := find?_mem hfx
+    have hxid : xs.id = x := find?_id hfx
+    rw [hp] at hnd
+    have hnd' := List.nodup_append.1 hnd
+    have hxne : x ≠ e.1 := by
+      intro h; subst h
+      exact (List.nodup_cons.1 hnd'.2.1).1 hx
+    have hxpre : x ∉ pre := fun h => hnd'.2.2 x h x (by simp [hx]) rfl
+    rw [← hid]
+    apply undisturbed_of hwf hg hspec hxs (by rw [hxid, hid]; exact hxne)
+    rw [hxid, hid]
+    intro hanc
+    exact hxpre (hord pre e.1 post hp spec hspec hid x hanc)
+
+/-- If every task's rows match, a non-forced run of the loop executes nothing and changes nothing. -/
+theorem quiet_buildLoop (F : BodyFn) (P : Project) (g : G) (cfg : Cfg) (w0 : World)
+    (hforce : cfg.force = false) (hall : ∀ t ∈ P.tasks, RowsMatch P g w0 t.id) :
+    ∀ (picks : List Nat) (so so' : Sorter) (s s' : Sess), s.w = w0 →
+      buildLoop F P g cfg so s picks = .ok (so', s') → s'.w = w0 ∧ s'.log = s.log
+  | [], so, so', s, s', hw, h => by
+    simp only [buildLoop, Except.ok.injEq, Prod.mk.injEq] at h
+    rw [← h.2]; exact ⟨hw, rfl⟩
+  | t :: ts, so, so', s, s', hw, h => by
+    obtain ⟨spec, hfind, _, _, _, hrest⟩ := buildLoop_cons h
+    have hq := setupChain_rowsMatch P g cfg s spec hforce (by rw [hw]; exact hall spec (find?_mem hfind))
+      Generated.setupOrder (by decide)
+    obtain ⟨h1, h2⟩ := protocol_quiet F P g cfg s spec hq
+    obtain ⟨h3, h4⟩ := quiet_buildLoop F P g cfg w0 hforce hall ts _ so' _ s' (by rw [h1]; exact hw) hrest
+    exact ⟨h3, by rw [h4, h2]⟩
+
 end Engine
 end Pytask
